@@ -57,7 +57,8 @@ REPS = {
 }
 KEYREPS = dict(REPS)
 KEYREPS.update({
-    's_word': ['abc', 'hello', 'x', 'key-1', 'a b c', 'path/to/file.txt', 'snake_case', 'hi there, you', 'word ' * 30 + 'end'],
+    's_word': ['abc', 'hello', 'x', 'key-1', 'a b c', 'path/to/file.txt', 'snake_case', 'hi there, you', 'word ' * 30 + 'end',
+               'h\xe9llo', 'ma\xf1ana', 'k\u4e2d'],
     's_bool': ['TRUE', 'True', 'NO', 'OFF', 'No', 'Off', 'FALSE', 'ON', 'Yes'],
     's_int': ['12', '0', '0x1F', '0b101', '017', '1:30', '1_000', '190:20:30'],
     's_float': ['.5', '.NaN', '.inf', '.Inf', '.NAN'],
@@ -74,17 +75,35 @@ DATE_REPS = {
     'dtn': {1: [D.datetime(1, 1, 1, 0, 0, 0), D.datetime(1999, 12, 31, 23, 59, 59, 999999), D.datetime(1987, 6, 5, 4, 3, 2)],
             2: [D.datetime(2001, 12, 14, 21, 59, 43, 100000), D.datetime(2020, 2, 29, 12, 0, 0, 1), D.datetime(2010, 1, 1)],
             3: [D.datetime(2525, 5, 5, 5, 5, 5, 50), D.datetime(9999, 12, 31, 23, 59, 59, 999999)]},
-    'dta': {1: [D.datetime(1995, 5, 5, 5, 5, 5, tzinfo=TZ(TD(hours=5, minutes=30))), D.datetime(1970, 1, 1, tzinfo=TZ.utc),
-                D.datetime(1990, 1, 1, 1, 1, 1, 7, tzinfo=TZ(-TD(hours=12)))],
-            2: [D.datetime(2001, 12, 14, 21, 59, 43, 100000, tzinfo=TZ(-TD(hours=5))), D.datetime(2015, 6, 30, 23, 59, 59, tzinfo=TZ(TD(hours=14))),
-                D.datetime(2005, 3, 3, 3, 3, 3, 999999, tzinfo=TZ(-TD(hours=3, minutes=30)))],
-            3: [D.datetime(2525, 1, 1, tzinfo=TZ(TD(minutes=1))), D.datetime(9000, 1, 1, 12, tzinfo=TZ(-TD(hours=23, minutes=59)))]},
     # aware, and the UTC offset has seconds (D7)
     'dts': {1: [D.datetime(1995, 5, 5, 5, 5, 5, tzinfo=TZ(TD(hours=5, minutes=30, seconds=15))),
                 D.datetime(1937, 6, 30, 12, tzinfo=TZ(TD(minutes=19, seconds=32)))],
             2: [D.datetime(2001, 1, 1, 1, 1, 1, 5, tzinfo=TZ(-TD(seconds=1))), D.datetime(2010, 10, 10, tzinfo=TZ(TD(seconds=30, microseconds=500000)))],
             3: [D.datetime(2525, 1, 1, tzinfo=TZ(-TD(hours=7, seconds=59)))]},
 }
+
+
+# aware datetimes: local time by rank (incl. the edges of the range and non-zero microseconds) x UTC offset by shape:
+# timezone.utc, +00:00, and sign x {zero, non-zero} hours x {zero, non-zero} minutes (TzShapes of Represent.tla)
+DTA_LOCAL = {1: [D.datetime(1, 1, 2, 0, 0, 0), D.datetime(1970, 1, 1), D.datetime(1995, 5, 5, 5, 5, 5, 7), D.datetime(1999, 12, 31, 23, 59, 59, 999999)],
+             2: [D.datetime(2001, 12, 14, 21, 59, 43, 100000), D.datetime(2015, 6, 30, 23, 59, 59), D.datetime(2005, 3, 3, 3, 3, 3, 1)],
+             3: [D.datetime(2525, 1, 1), D.datetime(9999, 12, 30, 12, 0, 0, 999999)]}
+TZ_MINUTES = {'p00': [0], 'pH0': [60, 300, 840, 1380], 'p0M': [1, 30, 45, 59], 'pHM': [61, 330, 765, 1439],
+              'nH0': [-60, -300, -720, -1380], 'n0M': [-1, -25, -30, -59], 'nHM': [-61, -210, -570, -1439]}
+
+
+def tz_of_shape(rng, z, free=False):
+    if z == 'utc':
+        return TZ.utc
+    if not free:
+        return TZ(TD(minutes=rng.choice(TZ_MINUTES[z])))
+    h = rng.randrange(1, 24) if z[1] == 'H' else 0
+    m = rng.randrange(1, 60) if z[2] == 'M' else 0
+    return TZ(TD(minutes=(-1 if z[0] == 'n' else 1) * (60 * h + m)))
+
+
+def aware_rep(rng, r, z):
+    return rng.choice(DTA_LOCAL[r]).replace(tzinfo=tz_of_shape(rng, z))
 
 
 def rep_of(rng, cls, key=False):
@@ -104,6 +123,8 @@ def build_value(heap, root, rng, key_positions=True):
             objs.append({})
         elif t == 'set':
             objs.append(set())
+        elif t == 'dta':
+            objs.append(aware_rep(rng, cell['r'], cell['z']))
         else:
             objs.append(rng.choice(DATE_REPS[t][cell['r']]).replace())     # a fresh object: distinct cells are distinct objects
 
@@ -398,24 +419,54 @@ def leading_space_dropped(x, y):
     return j == len(y) and dropped > 0
 
 
+def fold_in_more_indented(x, y):
+    """y is x as a folded scalar reads it back when the writer folded at a space inside a more-indented line (a line that
+    starts with white space): that space comes back as a break; the rest of the line is then an ordinary line, so the
+    run of k breaks that ends it - written literally - is read as a fold: k - 1 breaks, a space for k = 1 (unless the
+    next line is more-indented again, or the breaks end the scalar)."""
+    BR = '\n\x85\u2028\u2029'
+
+    def more_indented(i):
+        ls = max(x.rfind(b, 0, i) for b in BR) + 1
+        return ls != i and x[ls] in ' \t'
+    i = j = hits = other = 0
+    demoted = False
+    while i < len(x):
+        if x[i] == '\n' and demoted:
+            k = 1
+            while i + k < len(x) and x[i + k] == '\n':
+                k += 1
+            demoted = False
+            if i + k < len(x) and x[i + k] not in ' \t':        # (trailing breaks are chomping, not folding)
+                want = ' ' if k == 1 else '\n' * (k - 1)
+                if y[j:j + len(want)] != want:
+                    return None
+                i += k
+                j += len(want)
+                continue
+        if j < len(y) and x[i] == y[j]:
+            i += 1
+            j += 1
+        elif x[i] == ' ' and y[j:j + 1] == '\n':
+            if more_indented(i):
+                hits += 1
+                demoted = True
+            else:
+                other += 1
+            i += 1
+            j += 1
+        else:
+            return None
+    if j != len(y) or hits + other == 0:
+        return None
+    return 'space-in-more-indented-line-became-break' if other == 0 else 'space-became-break'
+
+
 def string_feature(x, y):
     """names the shape of the difference between the string dumped (x) and the string read back (y)"""
-    if len(x) == len(y):
-        diff = [i for i in range(len(x)) if x[i] != y[i]]
-
-        def line_start(i):                        # after the last break character (LF, NEL, LS, PS) before i
-            return max(x.rfind(b, 0, i) for b in '\n\x85\u2028\u2029') + 1
-
-        def more_indented(i):                    # position i lies in a line that starts with white space
-            return x[line_start(i)] in ' \t' and line_start(i) != i
-        to_break = [i for i in diff if x[i] == ' ' and y[i] == '\n']
-        to_space = [i for i in diff if x[i] == '\n' and y[i] == ' ']
-        if to_break and len(to_break) + len(to_space) == len(diff):
-            # a fold point inside a more-indented line of a folded scalar is read back as a break; the rest of that line
-            # then no longer looks more-indented, so the break that ends it is read back as a fold (a space)
-            if all(more_indented(i) for i in to_break) and all(i > 0 and more_indented(i - 1) for i in to_space):
-                return 'space-in-more-indented-line-became-break'
-            return 'space-became-break'
+    f = fold_in_more_indented(x, y)
+    if f:
+        return f
     if leading_space_dropped(x, y):
         return 'line-leading-space-dropped'
     for ch in BREAKISH:
@@ -603,7 +654,7 @@ def random_scalar(rng, key=False):
     if r < 0.5:
         return dt
     if r < 0.94:
-        return dt.replace(tzinfo=TZ(TD(minutes=rng.choice([0, 60, -60, 330, -210, 840, -720, 1, -1439, rng.randrange(-1439, 1440)]))))
+        return dt.replace(tzinfo=tz_of_shape(rng, rng.choice(['utc'] + sorted(TZ_MINUTES)), free=True))
     return dt.replace(tzinfo=TZ(TD(seconds=rng.choice([1, -1, 19 * 60 + 32, rng.randrange(-86399, 86400)]), microseconds=rng.choice([0, 0, 500000]))))
 
 
@@ -755,11 +806,41 @@ def homogeneous_keys(rng, kind, n):
     return out
 
 
+# ------------------------------------------------------------------------------------------------ systematic string grid
+# strings whose first / last lines are what the block-scalar header (indentation indicator, chomping) and the quoted
+# writers must get right: {leading break(s), leading space(s) / tab, both orders} x {plain, inner spaces, inner
+# more-indented line, inner empty line, long line} x {trailing break(s), trailing space, both orders}
+GRID_LEADS = ['', '\n', '\n\n', ' ', '  ', '\n ', '\n\n  ', ' \n', ' \n ', '\t', '\n\t']
+GRID_BODIES = ['abc', 'a b', 'abc\n def', 'a\n  more indented line\nb', 'a\n\nb', 'a b c d e f g h i j k l m n o p']
+GRID_TRAILS = ['', '\n', '\n\n', ' ', ' \n', '\n ']
+GRID = [l + b + t for l in GRID_LEADS for b in GRID_BODIES for t in GRID_TRAILS]
+# the contexts a scalar can be written in: root, block sequence entry, mapping value, mapping key (simple-key context),
+# nested three levels (larger indentation), sequence entry inside a mapping
+GRID_CONTEXTS = [lambda s: s, lambda s: [s], lambda s: {'k': s}, lambda s: {s: 1}, lambda s: [[[s]]], lambda s: {'k': [s, 'x']}]
+GRID_OPTIONS = [{}, {'default_flow_style': True}, {'width': 10, 'indent': 4}]
+# the grid strings are also representatives of the class s_multi of the model (as keys: those that sort below '.')
+REPS['s_multi'] = REPS['s_multi'] + [g for g in GRID if g not in REPS['s_multi']]
+KEYREPS['s_multi'] = KEYREPS['s_multi'] + [g for g in GRID if g[0] in ' \n\t' and g not in KEYREPS['s_multi']]
+
+
+def grid_cases(i):
+    """every (context, style, option set) for grid string i -> [(recipe, value, opts)]"""
+    out = []
+    for ci, ctx in enumerate(GRID_CONTEXTS):
+        for st in STYLES:
+            for oi, o in enumerate(GRID_OPTIONS):
+                opts = dict(o, default_style=st, sort_keys=False)
+                out.append(({'kind': 'grid', 'string': i, 'context': ci}, ctx(GRID[i]), opts))
+    return out
+
+
 # ------------------------------------------------------------------------------------------------ recipes, variants (C16)
 def rebuild(rec):
     """recipe -> (value, opts): deterministic, also across interpreters with different hash seeds"""
     if rec['kind'] == 'state':
         value = build_value(rec['heap'], rec['root'], random.Random(rec['rseed']))
+    elif rec['kind'] == 'grid':
+        value = GRID_CONTEXTS[rec['context']](GRID[rec['string']])
     else:
         rng = random.Random('%d/%d' % (rec['seed'], rec['index']))
         value, _ = random_case(rng, homog=rec.get('homog', 0.0))
